@@ -1,7 +1,6 @@
 (** Frame builders: _make_tx_msg never raises for legal inputs and produces legal frames. *)
 From IsoTp Require Import Base.Prelude Base.Bits Model.Frames Spec.ConfigSpec.
-
-Definition legal_len (n : Z) : Prop := (2 <= n <= 8) \/ In n [12; 16; 20; 24; 32; 48; 64].
+From IsoTp Require Export Spec.FrameSpec.
 
 Lemma in_ll_sizes x : In x LL_SIZES -> x = 8 \/ x = 12 \/ x = 16 \/ x = 20 \/ x = 24 \/ x = 32 \/ x = 48 \/ x = 64.
 Proof. unfold LL_SIZES; simpl; intuition. Qed.
@@ -9,30 +8,6 @@ Proof. unfold LL_SIZES; simpl; intuition. Qed.
 Lemma in_min_lens x : In x MIN_LENS ->
   (1 <= x <= 8) \/ x = 12 \/ x = 16 \/ x = 20 \/ x = 24 \/ x = 32 \/ x = 48 \/ x = 64.
 Proof. unfold MIN_LENS; simpl; intuition lia. Qed.
-
-(** Reference data-length-code table (ISO 11898-1 / ISO-15765-2 table 3). *)
-Definition dlc_table (n : Z) : Z :=
-  if n <=? 8 then n else if n =? 12 then 9 else if n =? 16 then 10 else if n =? 20 then 11
-  else if n =? 24 then 12 else if n =? 32 then 13 else if n =? 48 then 14 else 15.
-
-(** Reference padding target of ISO-15765-2:2016 10.4.2 + the documented tx_data_min_length. *)
-Definition next_fd (n : Z) : Z :=
-  if n <=? 8 then n else if n <=? 12 then 12 else if n <=? 16 then 16 else if n <=? 20 then 20
-  else if n <=? 24 then 24 else if n <=? 32 then 32 else if n <=? 48 then 48 else 64.
-
-Definition pad_target (p : params) (n : Z) : Z :=
-  if p_tx_dl p =? 8 then
-    match p_tx_min_len p with
-    | Some m => Z.max n m
-    | None => match p_tx_padding p with Some _ => 8 | None => n end
-    end
-  else
-    match p_tx_min_len p with
-    | Some m => Z.max m (next_fd n)
-    | None => next_fd n
-    end.
-
-Definition pad_byte (p : params) : Z := match p_tx_padding p with Some b => b | None => 0xCC end.
 
 Lemma padding_byte_spec p : params_ok p -> padding_byte p = pad_byte p.
 Proof.
